@@ -102,6 +102,28 @@ class C02(Check):
                 if s["sensor"]["type"] == "optical" and rng.random() < 0.7:
                     s["sensor"]["detectable_vismag"] = rng.choice([30.0, 25.0, 16.0, 12.0])
         S, step, out, ncfg = time_info({"config": cfg})
+        # space-based optical sensors: put a target close to the Sun / anti-Sun line of sight (exclusion cone edges, limb)
+        for e in cfg["engines"]:
+            for s in e["sensors"]:
+                if s["platform"]["type"] == "spacecraft" and s["sensor"]["type"] == "optical" and rng.random() < 0.6 and e["targets"]:
+                    from ..oracles import kepler
+
+                    k = rng.randrange(0, ncfg + 1)
+                    xs = kepler.propagate(np.array(s["state"]["position"] + s["state"]["velocity"], dtype=float), k * step)
+                    sun = visibility.sun_position(S + dt.timedelta(seconds=k * step))
+                    u = (sun - xs[:3]) / np.linalg.norm(sun - xs[:3]) * rng.choice([1.0, -1.0])
+                    perp = np.cross(u, np.array([0.3, 0.5, 0.8]))
+                    perp /= np.linalg.norm(perp)
+                    ang = math.radians(rng.choice([rng.uniform(0, 14), rng.uniform(14, 16), rng.uniform(16, 30)]))
+                    d = math.cos(ang) * u + math.sin(ang) * perp
+                    xt = np.concatenate([xs[:3] + d * rng.uniform(300, 4000), xs[3:]])
+                    r = float(np.linalg.norm(xt[:3]))
+                    if gen.RE + 300 < r < gen.RE + 40000:
+                        vdir = np.cross(np.cross(xt[:3], xt[3:]), xt[:3])
+                        xt[3:] = vdir / np.linalg.norm(vdir) * math.sqrt(kepler.MU / r)
+                        x0 = kepler.propagate(xt, -k * step)
+                        t = rng.choice(e["targets"])
+                        t["state"]["position"], t["state"]["velocity"] = [float(v) for v in x0[:3]], [float(v) for v in x0[3:]]
         return {"config": cfg, "plan": [{"seconds": ncfg * step}], "schedule": {"name": "seeded", "seed": rng.randrange(2**31)}, "job_seed": rng.randrange(2**31),
                 "noise": rng.choice(["off", "off", "on"])}
 
@@ -127,6 +149,9 @@ class C02(Check):
             from resonaate.physics.transforms.methods import eci2ecef
 
             max_meas = {}
+            # rsim's own record of where each sensor points and when it last slewed: {sensor: (step, [(boresight, time), ...])}
+            book = {}
+            pending = {}
             for r in probes.of_kind("collect"):
                 sen = r["sensor"]
                 if sen["bias"]:
@@ -137,6 +162,20 @@ class C02(Check):
                     viol.append({"clause": "sensor-epoch", "key": "datetime", "detail": f"step {k}: sensor {sen['id']} works at {sen['datetime']} / t={sen['time']}, the epoch is {when}"})
                     continue
                 ecef_of = lambda x, when=when: eci2ecef(np.asarray(x, dtype=float), when)  # noqa: E731
+                # the state the sensor starts this call with must be what rsim's own bookkeeping says it was left in
+                # by its last tasking (any of them when several jobs of one step tasked it, see C08 finding F11)
+                for sid0, (k0, lst) in list(pending.items()):
+                    if k0 < k:
+                        book[sid0] = lst
+                        del pending[sid0]
+                if sen["id"] in book:
+                    ok_state = any(float(np.linalg.norm(np.asarray(b) - sen["boresight"])) <= 1e-9 and abs(t - sen["last_tasked"]) <= 1e-9 for b, t in book[sen["id"]])
+                    if not ok_state:
+                        viol.append({"clause": "sensor-pointing-state-stale", "key": "boresight/last-tasked",
+                                     "detail": f"step {k} sensor {sen['id']}: starts the step with last-tasked time {sen['last_tasked']} and boresight {np.round(sen['boresight'], 6).tolist()}, "
+                                               f"but its last tasking left it at {[(np.round(np.asarray(b), 6).tolist(), t) for b, t in book[sen['id']][:2]]}"})
+                    else:
+                        cnt["slew_state_confirmed"] = cnt.get("slew_state_confirmed", 0) + 1
                 cnt["collect_calls"] = cnt.get("collect_calls", 0) + 1
                 cnt[f"calls_{sen['kind']}_{'space' if sen['space'] else 'ground'}"] = cnt.get(f"calls_{sen['kind']}_{'space' if sen['space'] else 'ground'}", 0) + 1
                 targets = {r["primary"]["id"]: r["primary"]}
@@ -190,6 +229,18 @@ class C02(Check):
                     if abs(v["measurement"]["azimuth_rad"]) < math.radians(1) or abs(v["measurement"]["azimuth_rad"] - 2 * math.pi) < math.radians(1):
                         cnt["observations_within_1deg_of_azimuth_seam"] = cnt.get("observations_within_1deg_of_azimuth_seam", 0) + 1
                     cnt["observations_judged"] = cnt.get("observations_judged", 0) + 1
+                # rsim's bookkeeping for the next step: did the mount slew to the commanded pointing?
+                vp = verdict(r["primary"]["id"])
+                slew_ok = vp["Slew Rate/Distance to Target"]
+                s_ecef0, p_ecef0 = ecef_of(sen["eci"]), ecef_of(r["estimate"])
+                _a, _e, _r, _rr, prho0 = visibility.topocentric(s_ecef0, p_ecef0)
+                new_state = (prho0 / np.linalg.norm(prho0), sen["time"])
+                old_state = (sen["boresight"], sen["last_tasked"])
+                options = [new_state] if slew_ok is True else ([old_state] if slew_ok is False else [new_state, old_state])
+                if sen["id"] in pending and pending[sen["id"]][0] == k:
+                    pending[sen["id"]][1].extend(options)
+                else:
+                    pending[sen["id"]] = (k, list(options))
                 # the primary target: an observation, or exactly one miss whose reason really fails
                 pid = r["primary"]["id"]
                 n_obs = sum(1 for o in r["obs"] if o["target"] == pid)
